@@ -346,9 +346,8 @@ Definition exec (X : handle) (o : op) : M (option (outkind * handle)) :=
   (* ---- System: sys[i] = different_molecules[k].copy(system_gro[a:b]) *)
   | HS insts, OHandout i =>
       do inst <- lift (nth_res insts i);
-      let '(mt, ts, recs) := inst in
-      do rs0 <- mapMM (fun cs => do gs <- gro_alloc_list cs; do _ <- residname_check cs; ret gs) recs;
-      do Y <- mol_init mt ts rs0; ret (Some (NewCopy, Y))
+      do rs0 <- mapMM (fun cs => do gs <- gro_alloc_list cs; do _ <- residname_check cs; ret gs) (snd inst);
+      do Y <- mol_init (fst (fst inst)) (snd (fst inst)) rs0; ret (Some (NewCopy, Y))
   | _, _ => fail EType
   end.
 
